@@ -43,6 +43,8 @@ def udpOp (u : USt) (op : String) : Option USt :=
   let rest := op.drop 1 |>.toString
   match kind with
   | "L" => if rest = "" then some { u with w := step u.w .openListener } else none
+  -- a listener with receive_broadcasts: another receive path in the adapter, the same contract
+  | "B" => if rest = "" then some { u with w := step u.w .openListener } else none
   | "R" => if rest = "" then some { u with w := step u.w .openRaw } else none
   | "C" =>
     match rest.toNat? with
